@@ -96,7 +96,7 @@ CHECKS = {
         design="5/C17"),
     "C15": dict(
         text="PARTIAL by design (stated in DESIGN 5/C15). Proved (Coq, every graph/rule): passing is invariant under reordering and duplication of subjects, objects, modules and imports, all 12 shapes, "
-             "related modules included (C15_order_independent, lists as sets); the graph queries return the same Ok/error and the same set of imports (C15_query_order_independent); the configuration "
+             "related modules included (C15_order_independent, lists as sets), and so is the whole outcome class pass / AssertionError / error (C15_class_order_independent); the graph queries return the same Ok/error and the same set of imports (C15_query_order_independent); the configuration "
              "a rule object is left with after an evaluation evaluates like the original on every architecture (C15_reapply); the model's evaluable is an immutable value. "
              "Checked by execution on /repo (not provable in a model): 40-evaluation interleavings on one shared evaluable vs each evaluation alone, snapshot before/after, re-applied rule objects, "
              "all permutations of list arguments and layer orders, permuted exclusion tuples, shuffled Path.iterdir, two scans, 8 hash seeds in fresh interpreters (digest of all verdicts+messages).",
